@@ -267,6 +267,18 @@ impl Env {
                 "timing_roa_reissue_weeks_before" => {
                     t.timing_roa_reissue_weeks_before = *value
                 }
+                "timing_aspa_valid_weeks" => {
+                    t.timing_aspa_valid_weeks = *value
+                }
+                "timing_aspa_reissue_weeks_before" => {
+                    t.timing_aspa_reissue_weeks_before = *value
+                }
+                "timing_bgpsec_valid_weeks" => {
+                    t.timing_bgpsec_valid_weeks = *value
+                }
+                "timing_bgpsec_reissue_weeks_before" => {
+                    t.timing_bgpsec_reissue_weeks_before = *value
+                }
                 "timing_child_certificate_valid_weeks" => {
                     t.timing_child_certificate_valid_weeks = *value
                 }
